@@ -33,7 +33,7 @@ func init() {
 	})
 	register(&Prop{
 		ID:    "C06",
-		Rules: []func(*core.Ctx){RSurface, RByteUnit, RUnsetPair, RNZero, RPrevInit, RDialectSib, RTentative, RUnitCmp, RLazyTable, rDirFoldOnly, RMapState, rCountNOnly, RNodeOpts},
+		Rules: []func(*core.Ctx){RSurface, RByteUnit, RUnsetPair, RNZero, RPrevInit, RDialectSib, RTentative, RPosixASCII, RUnitCmp, RLazyTable, rDirFoldOnly, RMapState, rCountNOnly, RNodeOpts},
 		Explanation: "Structural necessary conditions of the adapter agreeing with the standard library: R-SURFACE (method-set and signature agreement with *regexp.Regexp, on go/types), R-BYTEUNIT (no rune position reaches an []int the adapter fills or a bound of a byte slice: SSA taint from Capture.RuneIndex / RuneLength, sanitised only by indexing an offset table), R-UNSETPAIR (groups without captures give -1 pairs / nil / \"\"), R-NZERO (n == 0 gives nil), R-PREVINIT (the first empty match is not dropped), R-DIALECTSIB (\\w \\d \\s \\b and their forms inside a class pick their ASCII dialect under the same option predicates), R-UNITCMP, R-LAZYTABLE, R-DIRFOLD (shared with C07/C08). " +
 			"That the adapter returns what the standard library returns for a pattern and input is an equality between two engines and is NOT decided.",
 	})
@@ -99,7 +99,7 @@ func init() {
 	})
 	register(&Prop{
 		ID:    "C16",
-		Rules: []func(*core.Ctx){RSub, RSubFirst, RBitmap, RCaseRecur, RRangeFlush, RCatTable, RNegChars, RFlipAdd, RNegFresh, RKeyInj, ROr20, RWordSib, RCopyAll, RUnionRet, RGapRune, RSetCodec, RCatsToo, RDialectSib, RCatPred, RRangePend, RTentative},
+		Rules: []func(*core.Ctx){RSub, RSubFirst, RBitmap, RCaseRecur, RRangeFlush, RCatTable, RNegChars, RFlipAdd, RNegFresh, RKeyInj, ROr20, RWordSib, RCopyAll, RUnionRet, RGapRune, RSetCodec, RCatsToo, RDialectSib, RCatPred, RRangePend, RTentative, RPosixASCII},
 		Explanation: "R-SUB (no observer or transformer of a class ignores its subtraction; canonicalize rewrites only under sub == nil; addSet / enumeration operands are tested), R-BITMAP (the ASCII fast path is charInSlow tabulated over exactly 0..127, guarded, never copied, never stale), R-CASERECUR (a subtraction is parsed with the same case flag), R-CATTABLE (a category name is accepted only with a table), R-NEGCHARS (callers of GetSetChars honour negation), R-FLIPADD (members are never added to a class after canonicalize has rewritten it in negated form without restoring the positive form first), R-NEGFRESH (negate is switched on only for sets created on the spot or known empty). " +
 			"Membership itself — range arithmetic, the lowercase tables, category evaluation order — is NOT decided.",
 	})
